@@ -361,6 +361,10 @@ class SymInt:
         if to is float:
             if o != o:
                 return op == "ne"
+            if o == float("inf"):
+                return op in ("lt", "le", "ne")
+            if o == float("-inf"):
+                return op in ("gt", "ge", "ne")
             return _CMP_PY[op](SymRatio(self, 1), o)
         try:
             oe, ol, oh = lift3(o)
@@ -402,11 +406,20 @@ class SymInt:
         return ctx().branch(self.e != 0)
 
     def __hash__(self):
-        # dict/set lookup: fork over the hint values, then one representative of "others".
+        # dict/set lookup: fork "value is one of the hints" / "is none of them"; inside the hint
+        # set fork over the concrete values, outside use one representative (sound iff every
+        # integer key of the table that is indexed is among the hints - assumption A2).
         c = ctx()
-        for v in c.hash_hints:
-            if self.lo <= v <= self.hi and c.branch(self.e == v):
-                return hash(v)
+        hints = [v for v in c.hash_hints if self.lo <= v <= self.hi]
+        if hints:
+            key = ("hash_inset", self.e.get_id())
+            cache = c.notes.setdefault("hash_terms", {})
+            inset = cache.get(key)
+            if inset is None:
+                inset = z3.Or(*[self.e == v for v in hints])
+                cache[key] = inset
+            if c.branch(inset):
+                return hash(c.concretise(self.e, limit=len(hints) + 2))
         m = c.get_model()
         return hash(m.eval(self.e, model_completion=True).as_signed_long())
 
